@@ -220,27 +220,32 @@ def normBuildV (env : Env) : Val → Val
   | .map b => .map (normBuild env b)
   | v => v
 
-def depsOfLinks (links : List Val) (deps : KVs) : KVs :=
-  links.foldl (fun acc l => addDep (linkTarget (strOf l)) (depEntry true) acc) deps
+/-- `for _, (k, e) := range ks { if _, ok := deps[k]; !ok { deps[k] = e } }` -/
+def addDeps (ks : List (String × Val)) (deps : KVs) : KVs :=
+  ks.foldl (fun acc ke => addDep ke.1 ke.2 acc) deps
 
 def namespaces : List String := ["network_mode", "ipc", "pid", "uts", "cgroup"]
 
 def servicePrefix : String := "service:"
 def containerPrefix : String := "container:"
 
-def depOfNamespace (s : KVs) (deps : KVs) (ns : String) : KVs :=
+/-- the dependency each `links` entry stands for -/
+def linkDeps (links : List Val) : List (String × Val) :=
+  links.map fun l => (linkTarget (strOf l), depEntry true)
+
+/-- the dependency a `service:<name>` namespace reference stands for -/
+def nsDep (s : KVs) (ns : String) : Option (String × Val) :=
   match lookup ns s with
-  | some (.str ref) =>
-    if hasPrefix servicePrefix ref then addDep (dropPrefix servicePrefix ref) (depEntry true) deps else deps
-  | _ => deps
+  | some (.str ref) => if hasPrefix servicePrefix ref then some (dropPrefix servicePrefix ref, depEntry true) else none
+  | _ => none
 
-def depsOfNamespaces (s : KVs) (deps : KVs) : KVs :=
-  namespaces.foldl (depOfNamespace s) deps
+def nsDeps (s : KVs) : List (String × Val) := namespaces.filterMap (nsDep s)
 
-def depsOfVolumesFrom (vf : List Val) (deps : KVs) : KVs :=
-  vf.foldl (fun acc v =>
-    let vol := strOf v
-    if hasPrefix containerPrefix vol then acc else addDep (volFromTarget vol) (depEntry false) acc) deps
+/-- the dependency a `volumes_from` entry stands for (`container:` references stand for none) -/
+def vfDep (v : Val) : Option (String × Val) :=
+  if hasPrefix containerPrefix (strOf v) then none else some (volFromTarget (strOf v), depEntry false)
+
+def vfDeps (vf : List Val) : List (String × Val) := vf.filterMap vfDep
 
 def seqOf : Option Val → List Val
   | some (.seq l) => l
@@ -250,11 +255,13 @@ def mapOf : Option Val → KVs
   | some (.map m) => m
   | _ => []
 
+/-- all implied dependencies of a service, in the order the loop visits them -/
+def impliedList (s : KVs) : List (String × Val) :=
+  linkDeps (seqOf (lookup "links" s)) ++ (nsDeps s ++ vfDeps (seqOf (lookup "volumes_from" s)))
+
 /-- the final `dependsOn` mapping of one service -/
 def impliedDeps (s : KVs) : KVs :=
-  depsOfVolumesFrom (seqOf (lookup "volumes_from" s))
-    (depsOfNamespaces s
-      (depsOfLinks (seqOf (lookup "links" s)) (mapOf (lookup "depends_on" s))))
+  addDeps (impliedList s) (mapOf (lookup "depends_on" s))
 
 def cleanVolume (clean : String → String) : Val → Val
   | .map vol => .map (insert "target" (.str (clean (strOf ((lookup "target" vol).getD .null)))) vol)
